@@ -26,6 +26,7 @@ func init() {
 	commands["pool-c14"] = func(w string) { runPool(w, "C14") }
 	commands["pool-c15"] = func(w string) { runPool(w, "C15") }
 	commands["pool-c19"] = func(w string) { runPool(w, "C19") }
+	commands["pool-c04"] = func(w string) { runPool(w, "C04") }
 }
 
 // ---- in-memory message pipe ----
@@ -120,6 +121,9 @@ func (s *Svc) Block(req *[]byte, res *[]byte) error {
 	s.w.logServe(s.connID)
 	k := 0
 	fmt.Sscanf(string(*req), "held:%d", &k)
+	s.w.mu.Lock()
+	s.w.blockRuns[k]++
+	s.w.mu.Unlock()
 	s.w.blockGate.enter(heldTag{s.connID, k}, nil)
 	*res = append([]byte(fmt.Sprintf("%s/%d/%d|", s.addr, s.gen, s.connID)), *req...)
 	return nil
@@ -169,6 +173,7 @@ type world struct {
 	dialViol  string
 	slowClose time.Duration
 	holdConn  map[int]int // stream tag -> connection its handler runs on
+	blockRuns map[int]int // held-call tag -> how many times its handler was entered
 }
 
 func (w *world) logServe(id int) {
@@ -295,7 +300,7 @@ type grabbed struct {
 }
 
 func newPoolRun(e *Env, prop string, maxConns, maxIdle int, keepalive, idleto int64, naddr int) *poolRun {
-	w := &world{e: e, servers: map[string]*srvState{}, byConn: map[*rpc.Conn]int{}, holdConn: map[int]int{}}
+	w := &world{e: e, servers: map[string]*srvState{}, byConn: map[*rpc.Conn]int{}, holdConn: map[int]int{}, blockRuns: map[int]int{}}
 	r := &poolRun{e: e, w: w, ids: map[uintptr]int{}, held: map[int]*heldCall{}, streams: map[int]*heldStream{}, prop: prop, cfg: [4]int64{int64(maxConns), int64(maxIdle), keepalive, idleto}}
 	for i := 0; i < naddr; i++ {
 		a := fmt.Sprintf("srv%d", i)
@@ -479,7 +484,17 @@ func (r *poolRun) call(a string, ping bool) {
 			r.e.fail("C14-wrong-address", fmt.Sprintf("call for %s was answered by %q", a, res), r.replay())
 		}
 	}
-	_ = nserved
+	r.w.mu.Lock()
+	execs := len(r.w.served) - nserved
+	r.w.mu.Unlock()
+	switch {
+	case ping && execs != 0:
+		r.e.fail("C04-ping-ran-handler", fmt.Sprintf("a Ping to %s ran %d handler(s)", a, execs), r.replay())
+	case !ping && err == nil && execs != 1:
+		r.e.fail("C04-successful-call-not-once", fmt.Sprintf("a successful Call to %s was executed %d times", a, execs), r.replay())
+	case !ping && err != nil && execs > 1:
+		r.e.fail("C04-failed-call-executed-twice", fmt.Sprintf("a failed Call to %s was executed %d times", a, execs), r.replay())
+	}
 	r.checkShutdownConsumed(a, err)
 	if err != nil && err != rpc.ErrDial && err != rpc.ErrShutdown {
 		r.e.fail("C14-unexpected-error", fmt.Sprintf("call to %s failed with %v", a, err), r.replay())
@@ -788,7 +803,12 @@ func (r *poolRun) streamClose(k int) {
 }
 
 // kill the server of an address: the calls held on its connections end now
-func (r *poolRun) kill(a string) {
+func (r *poolRun) kill(a string) { r.cut(a, true) }
+
+// drop: every connection to the address is cut while its server keeps accepting new ones
+func (r *poolRun) drop(a string) { r.cut(a, false) }
+
+func (r *poolRun) cut(a string, down bool) {
 	before := r.before()
 	var ended []*heldCall
 	for _, c := range r.w.conns {
@@ -802,14 +822,37 @@ func (r *poolRun) kill(a string) {
 			delete(r.held, k)
 		}
 	}
-	r.w.kill(a)
+	if down {
+		r.w.kill(a)
+	} else {
+		r.w.dropConns(a)
+	}
 	var ops []string
 	for _, h := range ended {
 		var err error
-		select {
-		case err = <-h.done:
-		case <-time.After(10 * time.Second):
-			r.e.fail("C03-held-call-hangs", "a call in flight did not return after its server went away", r.replay())
+		timeout := time.After(10 * time.Second)
+	wait:
+		for {
+			select {
+			case err = <-h.done:
+				break wait
+			case <-timeout:
+				r.e.fail("C03-held-call-hangs", "a call in flight did not return after its connection was cut", r.replay())
+				break wait
+			case <-time.After(time.Millisecond):
+				// C04: the library never retries: the handler of a call whose connection was cut is not entered again
+				r.w.mu.Lock()
+				runs := r.w.blockRuns[h.k]
+				r.w.mu.Unlock()
+				if runs > 1 {
+					r.e.fail("C04-call-executed-twice", fmt.Sprintf("one Transport.Call whose connection was cut after its handler had started was executed %d times: the library sent the request again on another connection", runs), r.replay())
+					for _, w := range r.w.blockGate.list() {
+						if w.tag.(heldTag).k == h.k {
+							r.w.blockGate.release(w, nil)
+						}
+					}
+				}
+			}
 		}
 		if h.direct {
 			ops = append(ops, fmt.Sprintf("OpStreamEnd %d", h.conn))
@@ -826,7 +869,7 @@ func (r *poolRun) kill(a string) {
 		}
 	}
 	time.Sleep(2 * time.Millisecond)
-	r.step(before, "["+strings.Join(ops, "; ")+"]", "Kill "+a)
+	r.step(before, "["+strings.Join(ops, "; ")+"]", map[bool]string{true: "Kill ", false: "Drop "}[down]+a)
 }
 
 // wait until at least one whole housekeeping round ran
@@ -1030,7 +1073,11 @@ func (r *poolRun) script(i int) {
 			r.closeIdle()
 		case x < 91:
 			if r.up(a) {
-				r.kill(a)
+				if e.Rng.Intn(3) == 0 || r.prop == "C04" {
+					r.drop(a)
+				} else {
+					r.kill(a)
+				}
 			}
 		case x < 98:
 			if !r.up(a) {
